@@ -27,6 +27,11 @@ theorem cleanup_survives_channel_close_error : Gen.Proto.cleanupSurvivesChannelC
 a response that meets the end of the transport closes the connection -/
 theorem dispatch_closes_on_eof : Gen.Proto.dispatchClosesOnEof = true := by decide
 
+/-- obligation on the code (measured, `gen_proto.measure_cleanup_fails_pending`): `_cleanup` completes every request still
+waiting for its answer with EOFError (result ready, an error, callbacks run; a failing callback stops nothing).  False = the
+callbacks are dropped unfired and `ready` stays False for ever (`while not ar.ready:` never ends). -/
+theorem cleanup_fails_pending : Gen.Proto.cleanupFailsPending = true := by decide
+
 /-- obligation on the code (measured, `gen_proto.measure_box_refuses_on_closed_channel`): boxing by reference on a closed
 channel raises EOFError and registers nothing.  False = the object would be held for a peer that can never release it. -/
 theorem box_refuses_on_closed_channel : boxRefusesOnClosedChannel = true := by decide
